@@ -486,7 +486,8 @@ def field_leaves(f):
 
 
 def cmdhead(id, *names):
-    return {"kind": "cmd", "id": id, "names": list(names), "shorts": [], "longs": [], "help": f"HELP-{id}", "hidden": False}
+    return {"kind": "cmd", "id": id, "names": list(names), "shorts": [], "longs": [], "help": f"HELP-{id}", "hidden": False,
+            "nchars": [list(n) for n in names]}
 
 
 def acmd_family(seed, n, maxlen=5, budget=8000):
